@@ -24,7 +24,7 @@ FLOWVAR = ['absent', 'empty', 'zero', 'zero-dot', 'defined', 'built-on-empty', '
 # how an existing definition of the flow variable came about through the public API: AddVariable(name, desc, initial) then AddTermToEquation(name, term)...
 BUILT = {'built-on-empty': ('', ['z', 'w*v'], 'z + w*v'), 'built-on-zero': ('0.0', ['z'], 'z'), 'built-cancelled': ('', ['z', '-z'], None),
          'built-on-defined': ('z*2', ['w'], 'z*2 + w')}
-EXCL = [(), ('x',), ('y',), ('x', 'y'), ('other:x',)]
+EXCL = [(), ('x',), ('y',), ('x', 'y'), ('other:x',), ('twin:x',), ('twin:x', 'y')]      # other: another sector of the country; twin: the same sector code in another country
 
 
 def unsigned(term):
@@ -44,6 +44,8 @@ def make_sector():
     c = Country(m, 'CO')
     s = Sector(c, 'S')
     o = Sector(c, 'O')
+    c2 = Country(m, 'C2')
+    m.Twin = Sector(c2, 'S')        # same short code, another country
     return m, s, o
 
 
@@ -90,6 +92,8 @@ def run_config(cfg):
         for e in ex:
             if e.startswith('other:'):
                 m.AddCashFlowIncomeExclusion(o, e.split(':')[1])
+            elif e.startswith('twin:'):
+                m.AddCashFlowIncomeExclusion(m.Twin, e.split(':')[1])
             else:
                 m.AddCashFlowIncomeExclusion(s, e)
         for p in pre:
@@ -122,7 +126,7 @@ def run_config(cfg):
             if out['viol'] is None:
                 out['viol'] = {'why': 'rendering does not parse: %s' % e, 'c': ['0'] * len(cs), 'detail': [bF, aF, bI, aI]}
             return 'unparsable'
-        excluded = name in [e for e in ex if not e.startswith('other:')]
+        excluded = name in [e for e in ex if ':' not in e]
         counts = inc and not excluded
         post = [zaF == zbF + vt, zaI == (zbI + vt if counts else zbI)]
         labels = ['F after == F before + flow', 'INC after == INC before %s' % ('+ flow' if counts else '(not income / excluded)')]
@@ -295,6 +299,7 @@ cs = %(cs)r
 m, s, o = make_sector()
 for e in ex:
     if e.startswith('other:'): m.AddCashFlowIncomeExclusion(o, e.split(':')[1])
+    elif e.startswith('twin:'): m.AddCashFlowIncomeExclusion(m.Twin, e.split(':')[1])
     else: m.AddCashFlowIncomeExclusion(s, e)
 for p in pre:
     s.EquationBlock['F'].AddTerm(p); s.EquationBlock['INC'].AddTerm(p)
@@ -313,7 +318,7 @@ aF, aI = s.EquationBlock['F'].RHS(), s.EquationBlock['INC'].RHS()
 print('F  : %%r -> %%r' %% (bF, aF)); print('INC: %%r -> %%r' %% (bI, aI))
 import random
 rnd = random.Random(5); bad = False
-counts = inc and name not in [e for e in ex if not e.startswith('other:')]
+counts = inc and name not in [e for e in ex if ':' not in e]
 for i in range(5):
     env = {n: rnd.uniform(0.5, 3.0) for n in ('x', 'y', 'A__x', 'LAG_F', 'q', 'z')}
     ev = lambda tx: eval(tx, {}, env)
